@@ -1045,12 +1045,19 @@ std::string sqf::parser::preprocessor::impl_default::instance::parse_file(::sqf:
             {
                 if (c == '#' && was_new_line)
                 {
+                    auto line_before = fileinfo.line;
                     auto res = parse_ppinstruction(runtime, fileinfo);
                     if (m_errflag)
                     {
                         return res;
                     }
                     sstream << res;
+                    // A directive continued over several physical lines (backslash-newline) leaves a single
+                    // newline behind. Add the others, so that every following line keeps its line number.
+                    for (auto l = line_before + 1; l < fileinfo.line; l++)
+                    {
+                        sstream << '\n';
+                    }
                     break;
                 }
             }
